@@ -1,1 +1,2 @@
+pub mod controller;
 pub mod sign;
